@@ -73,6 +73,9 @@ def exc_classes() -> dict[str, type[BaseException]]:
         "ValueError": ValueError, "RuntimeError": RuntimeError, "KeyError": KeyError, "TypeError": TypeError,
         "ZeroDivisionError": ZeroDivisionError, "PermissionError": PermissionError, "CustomError": CustomError,
         "KindedError": KindedError,
+        # classes the framework's own control flow also uses: raised by user code they are implementation errors like any other
+        "StopIteration": StopIteration, "BrokenPipeError": BrokenPipeError, "ConnectionResetError": ConnectionResetError,
+        "OSError": OSError, "EOFError": EOFError, "ArrowInvalid": pa.ArrowInvalid, "TimeoutError": TimeoutError,
     }
     for n in ("MethodNotImplementedError", "SessionLostError", "ServerDrainingError", "ProtocolVersionError"):
         if hasattr(c, n):
@@ -207,6 +210,9 @@ def build(desc: dict[str, Any], version: str | None = None) -> tuple[type, Any]:
                 kw: dict[str, Any] = {"output_schema": OUT2_SCHEMA if wide else OUT_SCHEMA, "state": st}
                 if _m["kind"] == "exchange":
                     kw["input_schema"] = IN2_SCHEMA if wide else IN_SCHEMA
+                if _m["kind"] == "producer" and _m.get("explicit_empty_input"):
+                    # a producer may spell out its (empty) input schema with an equal-but-not-identical schema object
+                    kw["input_schema"] = pa.schema([])
                 if _hdr and init != "noheader":
                     kw["header"] = Hdr(h=_m.get("hdr", 0))
                 return Stream(**kw)
